@@ -30,6 +30,7 @@ import (
 	"github.com/lindb/lindb/metrics"
 	"github.com/lindb/lindb/pkg/bufioutil"
 	"github.com/lindb/lindb/pkg/encoding"
+	"github.com/lindb/lindb/pkg/verifhook"
 )
 
 //go:generate mockgen -source ./builder.go -destination=./builder_mock.go -package table
@@ -108,6 +109,7 @@ type storeBuilder struct {
 
 // NewStoreBuilder creates store builder instance for building store file
 func NewStoreBuilder(fileNumber FileNumber, fileName string) (Builder, error) {
+	verifhook.Yield("kv.fs.createTable")
 	writer, err := newBufioWriterFunc(fileName)
 	if err != nil {
 		return nil, fmt.Errorf("create file write for store builder error:%s", err)
@@ -198,6 +200,7 @@ func (b *storeBuilder) Abandon() error {
 
 // Close writes file footer before closing resources
 func (b *storeBuilder) Close() (err error) {
+	verifhook.Yield("kv.fs.closeTable")
 	defer func() {
 		if err0 := b.writer.Close(); err0 != nil {
 			err = err0
